@@ -102,6 +102,8 @@ def make_call(rng, entry, pattern, str_dtype=False):
             'l_out_attrs': gen.random_out_attrs(rng, L, 'lid', 'lattr'),
             'r_out_attrs': gen.random_out_attrs(rng, R, 'rid', 'rattr'),
             'out_sim_score': rng.random() < 0.7}
+    if rng.random() < 0.06:
+        call['show_progress'] = True
     if entry in T.JOINS:
         call['api'] = entry
         if entry == 'overlap_join':
